@@ -11,6 +11,7 @@ import (
 	"github.com/hslam/socket"
 	"io"
 	"runtime"
+	"sort"
 	"sync"
 )
 
@@ -205,7 +206,7 @@ func (conn *Conn) send(call *Call) {
 	if conn.shutdown || conn.closing {
 		conn.mutex.Unlock()
 		call.Error = ErrShutdown
-		call.done()
+		conn.complete(call)
 		return
 	}
 	seq := conn.seq
@@ -259,7 +260,7 @@ func (conn *Conn) send(call *Call) {
 		conn.mutex.Unlock()
 		if registered {
 			call.Error = err
-			call.done()
+			conn.complete(call)
 		}
 	}
 	if isStreaming {
@@ -289,16 +290,22 @@ func (conn *Conn) recv() {
 	}
 	// Responses already received are still sitting in the decode queue:
 	// let them complete their calls before the rest is failed.
-	pipeline.Close()
+	closeQueue(pipeline)
 	conn.mutex.Lock()
 	conn.shutdown = true
 	if err == io.EOF {
 		err = ErrShutdown
 	}
-	for seq, call := range conn.pending {
+	seqs := make([]uint64, 0, len(conn.pending))
+	for seq := range conn.pending {
+		seqs = append(seqs, seq)
+	}
+	sort.Slice(seqs, func(i, j int) bool { return seqs[i] < seqs[j] })
+	for _, seq := range seqs {
+		call := conn.pending[seq]
 		delete(conn.pending, seq)
 		call.Error = err
-		call.done()
+		conn.complete(call)
 	}
 	for seq, call := range conn.streams {
 		delete(conn.streams, seq)
@@ -307,11 +314,11 @@ func (conn *Conn) recv() {
 		}
 	}
 	conn.mutex.Unlock()
-	if conn.readSched != nil {
-		conn.readSched.Close()
-	}
 	if conn.writeSched != nil {
-		conn.writeSched.Close()
+		closeQueue(conn.writeSched)
+	}
+	if conn.readSched != nil {
+		closeQueue(conn.readSched)
 	}
 	if conn.readStream != nil {
 		conn.readStream.Close()
@@ -354,7 +361,7 @@ func (conn *Conn) read(ctx *Context, async bool) {
 		if err != nil {
 			err = errors.New("reading error body: " + err.Error())
 		}
-		call.done()
+		conn.complete(call)
 		conn.bufferPool.PutBuffer(ctx.buffer)
 		putContext(ctx)
 	default:
@@ -408,6 +415,27 @@ func (conn *Conn) read(ctx *Context, async bool) {
 		}
 	}
 
+}
+
+// closeQueue lets every task queued so far run, in order, and then closes the
+// queue. Close alone runs the remaining tasks on the closing goroutine while
+// the queue's worker may still be busy with an earlier one.
+func closeQueue(s scheduler.Scheduler) {
+	drained := make(chan struct{})
+	s.Schedule(func() { close(drained) })
+	<-drained
+	s.Close()
+}
+
+// complete signals the completion of call. With pipelining every completion,
+// successful or not, goes through the ordered completion queue, so that calls
+// are signalled in the order they were issued.
+func (conn *Conn) complete(call *Call) {
+	if conn.readSched != nil {
+		conn.readSched.Schedule(call.done)
+	} else {
+		call.done()
+	}
 }
 
 func (conn *Conn) finishCall(ctx *Context, call *Call, seq uint64) {
